@@ -265,3 +265,49 @@ def legacy_write_skeleton(c):
 def prove_legacy_write_skeleton(ctx):
     from pycaption.dfxp.extras import LegacyDFXPWriter as LW
     ctx.prove("dfxp.LegacyDFXPWriter.write[skeleton]", legacy_write_skeleton, functions=[LW.write, LW._force_language], crosscheck=False)
+
+
+# ------------------------------------------------------------------------------------ SRTWriter.write / MicroDVDWriter.write
+
+def plain_write_skeleton(c):
+    """SRTWriter.write and MicroDVDWriter.write as skeletons: the input is copied before anything else; every language of
+    the set is handed to `_recreate_lang` exactly once, in the set's order, as that language's own caption list; the
+    result is the texts `_recreate_lang` returned, in that order, nothing dropped or repeated, joined by the writer's
+    separator (SRT: the multi-language marker line; MicroDVD: nothing).  A second write on the same object gives the same."""
+    import copy
+    from pycaption.srt import SRTWriter
+    from pycaption.microdvd import MicroDVDWriter
+    which = c.pick("writer", ["srt", "microdvd"])
+    W, sep = {"srt": (SRTWriter, "MULTI-LANGUAGE SRT\n"), "microdvd": (MicroDVDWriter, "")}[which]
+    shape = c.pick("caption_set", list(SHAPES))
+    counts = SHAPES[shape]
+    langs = list(counts)
+    caps = {l: CaptionList([Caption(10 ** 6 * (k + 1), 10 ** 6 * (k + 2), [CaptionNode.create_text(f"{l} {k}")]) for k in range(n)])
+            for l, n in counts.items()}
+    cs = CaptionSet(dict(caps))
+    w = c.new(W)
+    log = []
+    c.interp.overrides[copy.deepcopy] = lambda x, *a: (log.append(("copy", x is cs)), x)[1]
+    q = f"{W.__module__}:{W.__name__}._recreate_lang"
+
+    def h_lang(interp, fn, a, kw):
+        x = N(fn, a, kw)["captions"]
+        l = [k for k in langs if caps[k] is x]
+        log.append(("lang", l[0] if l else None, len([e_ for e_ in log if e_[0] == "copy"])))
+        return f"<{l[0] if l else '?'}#{len(log)}>"
+    c.interp.contracts[q] = h_lang
+    for turn in (1, 2):
+        del log[:]
+        r = c.call(W.write, w, cs, compare=False)
+        handed = [e_ for e_ in log if e_[0] == "lang"]
+        c.ensure(f"write{turn}/input_copied_first", log[:1] == [("copy", True)] and all(e_[2] == 1 for e_ in handed))
+        c.ensure(f"write{turn}/every_language_once_in_order_with_its_own_captions", [e_[1] for e_ in handed] == langs)
+        c.ensure(f"write{turn}/result_is_the_language_texts_in_order",
+                 r == sep.join(f"<{l}#{k + 2}>" for k, l in enumerate(langs)))
+
+
+def prove_plain_write_skeleton(ctx):
+    from pycaption.srt import SRTWriter
+    from pycaption.microdvd import MicroDVDWriter
+    ctx.prove("srt.SRTWriter.write+microdvd.MicroDVDWriter.write", plain_write_skeleton,
+              functions=[SRTWriter.write, MicroDVDWriter.write], crosscheck=False)
